@@ -331,7 +331,7 @@ fn rewrite_role(bytes: &Frame, role: &str) -> Frame {
     Some(enc(&r))
 }
 
-async fn mitm(cfg_a: Cfg, cfg_b: Cfg, adv: Adv, earlier: Option<&Outcome>, sa: DuplexStream, sb: DuplexStream)
+async fn mitm(cfg_a: Cfg, cfg_b: Cfg, advs: &[Adv], earlier: Option<&Outcome>, sa: DuplexStream, sb: DuplexStream)
     -> ([Frame; 4], [Frame; 4]) {
     let mut fa = framed(sa);
     let mut fb = framed(sb);
@@ -340,6 +340,7 @@ async fn mitm(cfg_a: Cfg, cfg_b: Cfg, adv: Adv, earlier: Option<&Outcome>, sa: D
     let m1 = recv(&mut fa).await;
     let m2 = recv(&mut fb).await;
     let (mut d1, mut d2) = (m1.clone(), m2.clone());
+    for adv in advs.iter().copied() {
     match adv {
         Adv::Drop(1) => d1 = None,
         Adv::Drop(2) => d2 = None,
@@ -357,12 +358,14 @@ async fn mitm(cfg_a: Cfg, cfg_b: Cfg, adv: Adv, earlier: Option<&Outcome>, sa: D
         }
         _ => {}
     }
+    }
     deliver(&mut fb, &d1).await;
     deliver(&mut fa, &d2).await;
     // ---- responses (an endpoint that refused early has closed its pipe: recv gives None)
     let m3 = recv(&mut fa).await;
     let m4 = recv(&mut fb).await;
     let (mut d3, mut d4) = (m3.clone(), m4.clone());
+    for adv in advs.iter().copied() {
     match adv {
         Adv::Drop(3) => d3 = None,
         Adv::Drop(4) => d4 = None,
@@ -377,6 +380,7 @@ async fn mitm(cfg_a: Cfg, cfg_b: Cfg, adv: Adv, earlier: Option<&Outcome>, sa: D
         Adv::ModResp(4, m) => d4 = m4.as_ref().map(|b| apply_resp_mod(m, b)),
         _ => {}
     }
+    }
     deliver(&mut fb, &d3).await;
     deliver(&mut fa, &d4).await;
     // nothing more will ever come: close both pipes (data already written stays readable)
@@ -385,11 +389,11 @@ async fn mitm(cfg_a: Cfg, cfg_b: Cfg, adv: Adv, earlier: Option<&Outcome>, sa: D
     ([m1, m2, m3, m4], [d1, d2, d3, d4])
 }
 
-async fn run_session(cfg_a: Cfg, cfg_b: Cfg, adv: Adv, earlier: Option<&Outcome>) -> Outcome {
+async fn run_session(cfg_a: Cfg, cfg_b: Cfg, advs: &[Adv], earlier: Option<&Outcome>) -> Outcome {
     let (a_end, adv_a) = tokio::io::duplex(1 << 16);
     let (b_end, adv_b) = tokio::io::duplex(1 << 16);
     let (res_a, res_b, (sent, delivered)) =
-        tokio::join!(endpoint(cfg_a, a_end), endpoint(cfg_b, b_end), mitm(cfg_a, cfg_b, adv, earlier, adv_a, adv_b));
+        tokio::join!(endpoint(cfg_a, a_end), endpoint(cfg_b, b_end), mitm(cfg_a, cfg_b, advs, earlier, adv_a, adv_b));
     Outcome { res_a, res_b, sent, delivered }
 }
 
@@ -426,36 +430,56 @@ fn check_mirror(t: &mut Trace, o: &Outcome) {
     }
 }
 
-fn monitors(t: &mut Trace, a: &Cfg, b: &Cfg, adv: Adv, o: &Outcome) {
+fn show_advs(advs: &[Adv]) -> String {
+    advs.iter().map(|a| a.show()).collect::<Vec<_>>().join(" + ")
+}
+
+fn parse_advs(t: &[&str]) -> Option<Vec<Adv>> {
+    let v: Option<Vec<Adv>> = t.split(|x| *x == "+").map(Adv::parse).collect();
+    // several actions: only on pairwise different messages (the model driver rejects anything else too)
+    v.filter(|v| {
+        v.len() == 1
+            || ((2..=4).contains(&v.len())
+                && v.iter().all(|a| msg_index(a) != 0)
+                && (0..v.len()).all(|i| (0..i).all(|j| msg_index(&v[i]) != msg_index(&v[j]))))
+    })
+}
+
+fn challenge_of(f: &Frame) -> Option<Vec<u8>> {
+    match dec_req(f.as_ref()?)?.mode {
+        MMode::Encryption(c) => Some(c.challenge),
+        MMode::NoAuth => None,
+    }
+}
+
+/// Monitors on the REAL results. `advs`: the adversary actions of the row (one action = a row of the C20
+/// table; several = a row of the thorough-tier pairs table, outside C20's single-substitution quantifier).
+fn monitors(t: &mut Trace, a: &Cfg, b: &Cfg, advs: &[Adv], o: &Outcome) {
     check_mirror(t, o);
     let m = cfg_match(a, b);
     let desc = format!(
         "A=({},{},{},{}) B=({},{},{},{}) adv={} res={},{}",
-        KEYS[a.key], a.my, a.peer, a.proto, KEYS[b.key], b.my, b.peer, b.proto, adv.show(),
+        KEYS[a.key], a.my, a.peer, a.proto, KEYS[b.key], b.my, b.peer, b.proto, show_advs(advs),
         show_res(o.res_a), show_res(o.res_b)
     );
-    if adv == Adv::DoubleProto {
-        // finding "protocol-not-sealed": outside the C20 quantifier (two substitutions); own clause
-        if (o.res_a || o.res_b) && a.proto != b.proto {
-            t.mon_fail("c20.proto_bound", "protocol-not-sealed",
-                &format!("endpoints with different protocol numbers accepted each other after the protocol field of BOTH requests was rewritten: {desc}"));
-        }
-        return;
-    }
-    if m && adv == Adv::None && !(o.res_a && o.res_b) {
-        t.mon_fail("c20.complete", "honest-refused", &format!("matching configuration, undisturbed exchange, not both accept: {desc}"));
-    }
-    if !m && (o.res_a || o.res_b) {
-        t.mon_fail("c20.mismatch", "mismatch-accepted", &format!("configuration mismatch but an end accepted: {desc}"));
-    }
-    // matching conversations: an end accepts only if its own request reached the peer unmodified and the
-    // response it consumed is byte-identical to the response the peer sent in THIS session
     let same = |i: usize| o.sent[i].is_some() && o.sent[i] == o.delivered[i];
-    if o.res_a && !(m && same(0) && same(3)) {
-        t.mon_fail("c20.sound", "accepted-nongenuine", &format!("A accepted although cfg_match={m} m1_intact={} m4_genuine={}: {desc}", same(0), same(3)));
+
+    // ---- clauses that hold under ANY number of substitutions (theorems c20_auth, c20_accept_request_checked)
+    // agreement: a keyed end accepts only if the peer holds the same key, acts in the expected role, received
+    // exactly this end's challenge, and the consumed response is byte-identical to the peer's response of THIS session
+    let agree = |me: &Cfg, peer: &Cfg, my_req: usize, consumed: usize| -> bool {
+        me.key == peer.key && peer.my == me.peer && same(consumed)
+            && challenge_of(&o.sent[my_req]).is_some()
+            && challenge_of(&o.sent[my_req]) == challenge_of(&o.delivered[my_req])
+    };
+    if o.res_a && a.key != 0 && !agree(a, b, 0, 3) {
+        t.mon_fail("c20.agreement", "accepted-without-agreement", &format!("keyed A accepted without agreement (key, role, challenge, genuine response): {desc}"));
+    }
+    if o.res_b && b.key != 0 && !agree(b, a, 1, 2) {
+        t.mon_fail("c20.agreement", "accepted-without-agreement", &format!("keyed B accepted without agreement (key, role, challenge, genuine response): {desc}"));
     }
     // an end accepts only after a request that carried ITS protocol number, the role IT expects and the
-    // authentication mode that fits ITS key (Lean: c20_accept_request_checked) - whoever sent it
+    // authentication mode that fits ITS key - whoever sent it
     let req_ok = |me: &Cfg, f: &Frame| -> bool {
         match f.as_ref().and_then(|b| dec_req(b)) {
             Some(r) => {
@@ -473,6 +497,30 @@ fn monitors(t: &mut Trace, a: &Cfg, b: &Cfg, adv: Adv, o: &Outcome) {
     }
     if o.res_b && !req_ok(b, &o.delivered[0]) {
         t.mon_fail("c20.sound", "accepted-after-bad-request", &format!("B accepted although the request it received does not carry its protocol/expected role/auth mode: {desc}"));
+    }
+
+    if advs == [Adv::DoubleProto] {
+        // finding "protocol-not-sealed": outside the C20 quantifier (two substitutions); own clause
+        if (o.res_a || o.res_b) && a.proto != b.proto {
+            t.mon_fail("c20.proto_bound", "protocol-not-sealed",
+                &format!("endpoints with different protocol numbers accepted each other after the protocol field of BOTH requests was rewritten: {desc}"));
+        }
+        return;
+    }
+    if advs.len() != 1 {
+        return;
+    }
+    // ---- clauses of the C20 table proper (ONE substitution)
+    if m && advs[0] == Adv::None && !(o.res_a && o.res_b) {
+        t.mon_fail("c20.complete", "honest-refused", &format!("matching configuration, undisturbed exchange, not both accept: {desc}"));
+    }
+    if !m && (o.res_a || o.res_b) {
+        t.mon_fail("c20.mismatch", "mismatch-accepted", &format!("configuration mismatch but an end accepted: {desc}"));
+    }
+    // matching conversations: an end accepts only if the configurations match, its own request reached the peer
+    // unmodified and the response it consumed is byte-identical to the response the peer sent in THIS session
+    if o.res_a && !(m && same(0) && same(3)) {
+        t.mon_fail("c20.sound", "accepted-nongenuine", &format!("A accepted although cfg_match={m} m1_intact={} m4_genuine={}: {desc}", same(0), same(3)));
     }
     if o.res_b && !(m && same(1) && same(2)) {
         t.mon_fail("c20.sound", "accepted-nongenuine", &format!("B accepted although cfg_match={m} m2_intact={} m3_genuine={}: {desc}", same(1), same(2)));
@@ -509,19 +557,19 @@ fn exec_op(rt: &tokio::runtime::Runtime, t: &mut Trace, st: &mut CaseState, toks
     match toks.first().copied() {
         Some("base") => match parse_base(&toks[1..]) {
             Some((a, b)) => {
-                let o = rt.block_on(run_session(a, b, Adv::None, None));
+                let o = rt.block_on(run_session(a, b, &[Adv::None], None));
                 print_outcome(t, &o);
-                monitors(t, &a, &b, Adv::None, &o);
+                monitors(t, &a, &b, &[Adv::None], &o);
                 st.cfg = Some((a, b));
                 st.earlier = Some(o);
             }
             None => t.out("!bad-op"),
         },
-        Some("adv") => match (st.cfg, Adv::parse(&toks[1..])) {
-            (Some((a, b)), Some(adv)) => {
-                let o = rt.block_on(run_session(a, b, adv, st.earlier.as_ref()));
+        Some("adv") => match (st.cfg, parse_advs(&toks[1..])) {
+            (Some((a, b)), Some(advs)) => {
+                let o = rt.block_on(run_session(a, b, &advs, st.earlier.as_ref()));
                 print_outcome(t, &o);
-                monitors(t, &a, &b, adv, &o);
+                monitors(t, &a, &b, &advs, &o);
             }
             _ => t.out("!bad-op"),
         },
@@ -563,21 +611,58 @@ fn actions(a: &Cfg, b: &Cfg) -> Vec<Adv> {
     v
 }
 
-fn table() -> Vec<(Cfg, Cfg, Adv)> {
-    let mut rows = vec![];
+type Row = (Cfg, Cfg, Vec<Adv>);
+
+fn configs() -> Vec<(Cfg, Cfg)> {
+    let mut v = vec![];
     for ka in 0..3 {
         for kb in 0..3 {
             for pa in PAIRS {
                 for pb in PAIRS {
                     for proto_a in 0..2u32 {
                         for proto_b in 0..2u32 {
-                            let a = Cfg { key: ka, my: pa.0, peer: pa.1, proto: proto_a };
-                            let b = Cfg { key: kb, my: pb.0, peer: pb.1, proto: proto_b };
-                            for adv in actions(&a, &b) {
-                                rows.push((a, b, adv));
-                            }
+                            v.push((
+                                Cfg { key: ka, my: pa.0, peer: pa.1, proto: proto_a },
+                                Cfg { key: kb, my: pb.0, peer: pb.1, proto: proto_b },
+                            ));
                         }
                     }
+                }
+            }
+        }
+    }
+    v
+}
+
+/// THE C20 table: every configuration pair x every single-message action.
+fn table() -> Vec<Row> {
+    let mut rows = vec![];
+    for (a, b) in configs() {
+        for adv in actions(&a, &b) {
+            rows.push((a, b, vec![adv]));
+        }
+    }
+    rows
+}
+
+fn msg_index(a: &Adv) -> usize {
+    match a {
+        Adv::Drop(i) | Adv::Reflect(i) | Adv::Earlier(i) | Adv::Parallel(i) | Adv::ModReq(i, _) | Adv::ModResp(i, _) => *i,
+        Adv::None | Adv::DoubleProto => 0,
+    }
+}
+
+/// thorough tier only, OUTSIDE C20's quantifier: every pair of single-message actions on two different
+/// messages. Only the correspondence and the clauses that hold for any adversary are evaluated on these rows.
+fn pair_table() -> Vec<Row> {
+    let mut rows = vec![];
+    for (a, b) in configs() {
+        let acts = actions(&a, &b);
+        for x in &acts {
+            for y in &acts {
+                let (i, j) = (msg_index(x), msg_index(y));
+                if i != 0 && i < j {
+                    rows.push((a, b, vec![*x, *y]));
                 }
             }
         }
@@ -587,14 +672,14 @@ fn table() -> Vec<(Cfg, Cfg, Adv)> {
 
 /// `--double-proto`: NOT part of the C20 table (two substitutions). Same key option, complementary roles,
 /// different protocol numbers; the protocol field of both requests is rewritten.
-fn double_proto_table() -> Vec<(Cfg, Cfg, Adv)> {
+fn double_proto_table() -> Vec<Row> {
     let mut rows = vec![];
     for k in 0..3 {
         for pa in PAIRS {
             for (proto_a, proto_b) in [(0u32, 1u32), (1, 0)] {
                 let a = Cfg { key: k, my: pa.0, peer: pa.1, proto: proto_a };
                 let b = Cfg { key: k, my: pa.1, peer: pa.0, proto: proto_b };
-                rows.push((a, b, Adv::DoubleProto));
+                rows.push((a, b, vec![Adv::DoubleProto]));
             }
         }
     }
@@ -609,28 +694,44 @@ fn runtime() -> tokio::runtime::Runtime {
 
 fn gen_main(args: &[String]) {
     let g = GenArgs::parse(args);
-    let rows = if g.has("--double-proto") { double_proto_table() } else { table() };
-    let n = rows.len();
+    // (table name, rows); the C20 table is complete in BOTH tiers; --cases is ignored
+    let mut tables: Vec<(&str, Vec<Row>)> = vec![];
+    if g.has("--double-proto") {
+        tables.push(("double-proto", double_proto_table()));
+    } else {
+        tables.push(("c20", table()));
+        if (g.thorough || g.has("--pairs")) && !g.has("--no-pairs") {
+            tables.push(("pairs", pair_table()));
+        }
+    }
     if g.has("--count") {
-        println!("{n}");
+        for (name, rows) in &tables {
+            println!("{name} {}", rows.len());
+        }
         return;
     }
     let rt = runtime();
     let mut t = Trace::new();
     let mut k = 0u64;
-    for (idx, (a, b, adv)) in rows.iter().enumerate() {
-        if idx as u64 % g.nshards != g.shard {
-            continue;
+    let mut idx = 0u64;
+    for (name, rows) in &tables {
+        let n = rows.len();
+        for (a, b, advs) in rows.iter() {
+            let my = idx % g.nshards == g.shard;
+            idx += 1;
+            if !my {
+                continue;
+            }
+            t.case(idx - 1, g.case_seed(k), &format!("exhaustive=1 rows={n} table={name}"));
+            k += 1;
+            let mut st = CaseState::default();
+            for op in [show_base(a, b), format!("adv {}", show_advs(advs))] {
+                t.op(&op);
+                let toks: Vec<&str> = op.split(' ').collect();
+                exec_op(&rt, &mut t, &mut st, &toks);
+            }
+            t.end();
         }
-        t.case(idx as u64, g.case_seed(k), &format!("exhaustive=1 rows={n} table={}", if g.has("--double-proto") { "double-proto" } else { "c20" }));
-        k += 1;
-        let mut st = CaseState::default();
-        for op in [show_base(a, b), format!("adv {}", adv.show())] {
-            t.op(&op);
-            let toks: Vec<&str> = op.split(' ').collect();
-            exec_op(&rt, &mut t, &mut st, &toks);
-        }
-        t.end();
     }
     t.flush();
 }
@@ -663,7 +764,7 @@ pub fn main(mode: &str, args: &[String]) {
         "gen" => gen_main(args),
         "replay" => replay_main(),
         _ => {
-            eprintln!("usage: hqv auth gen --seed S --shard i/n --cases N --tier T [--double-proto] [--count] | hqv auth replay");
+            eprintln!("usage: hqv auth gen --seed S --shard i/n --cases N --tier T [--double-proto] [--pairs|--no-pairs] [--count] | hqv auth replay");
             std::process::exit(2);
         }
     }
